@@ -82,12 +82,16 @@ def short(path):
 
 def load_world(repo, config, deps=False):
     if deps:
-        paths, info = extract_mod.extract(repo, config, crates='ggrs,bitfield_rle,varinteger', all_crates=True)
-        fx = Facts(paths['ggrs'])
-        extra = [Facts(paths[c]) for c in ('bitfield_rle', 'varinteger')]
-        return World(fx, extra), info
+        paths, info = extract_mod.extract(repo, config)
+        dpaths, dinfo = extract_mod.extract_deps(repo)
+        extra = [Facts(dpaths[c]) for c in extract_mod.DEP_CRATES]
+        W = World(Facts(paths['ggrs']), extra)
+        W.repo = repo
+        return W, info
     paths, info = extract_mod.extract(repo, config)
-    return World(Facts(paths['ggrs'])), info
+    W = World(Facts(paths['ggrs']))
+    W.repo = repo
+    return W, info
 
 
 def known_findings():
@@ -110,7 +114,12 @@ def run_obligations(pid, W, tier, config):
             continue
         ob = Ob(oid, title, rule)
         try:
-            func(W, ob)
+            if opts.get('deps'):
+                # this rule also reads the typed MIR of the codec dependencies (writer side of the wire format)
+                dpaths, _ = extract_mod.extract_deps(getattr(W, 'repo', '/repo'))
+                func(World(W.fx, [Facts(dpaths[c]) for c in extract_mod.DEP_CRATES]), ob)
+            else:
+                func(W, ob)
         except AnchorMissing as e:
             ob.missing(str(e))
         except Exception as e:  # fail closed, but say what happened
